@@ -4,5 +4,9 @@ CONSTANTS
 SPECIFICATION Spec
 INVARIANT ExactlyOnceAtTruePosition
 INVARIANT V0416Characterised
+INVARIANT MergeExact
+INVARIANT InputChunksHazard
+INVARIANT MergesExist
+INVARIANT BallNotCube
 INVARIANT Emit
 CHECK_DEADLOCK FALSE
